@@ -216,13 +216,13 @@ func (runInfo *runInfoStruct) callExpr() {
 	// useCallSlice lets us know to use CallSlice instead of Call because of the format of the args
 	if useCallSlice {
 		if callExpr.Go {
-			go f.CallSlice(args)
+			go goCall(runInfo.options.Debug, func() { f.CallSlice(args) })
 			return
 		}
 		rvs = f.CallSlice(args)
 	} else {
 		if callExpr.Go {
-			go f.Call(args)
+			go goCall(runInfo.options.Debug, func() { f.Call(args) })
 			return
 		}
 		rvs = f.Call(args)
@@ -300,17 +300,19 @@ func (runInfo *runInfoStruct) callVMFunctionDirect(f reflect.Value, callExpr *as
 	runInfo.rv = nilValue
 
 	if callExpr.Go {
+		// a copy, so that the argument buffer of the fast path stays on the stack
+		ctx, debug, a := runInfo.ctx, runInfo.options.Debug, append([]reflect.Value(nil), args...)
 		switch {
 		case fn0 != nil:
-			go fn0(runInfo.ctx)
+			go goCall(debug, func() { fn0(ctx) })
 		case fn1 != nil:
-			go fn1(runInfo.ctx, args[0])
+			go goCall(debug, func() { fn1(ctx, a[0]) })
 		case fn2 != nil:
-			go fn2(runInfo.ctx, args[0], args[1])
+			go goCall(debug, func() { fn2(ctx, a[0], a[1]) })
 		case fn3 != nil:
-			go fn3(runInfo.ctx, args[0], args[1], args[2])
+			go goCall(debug, func() { fn3(ctx, a[0], a[1], a[2]) })
 		case fn4 != nil:
-			go fn4(runInfo.ctx, args[0], args[1], args[2], args[3])
+			go goCall(debug, func() { fn4(ctx, a[0], a[1], a[2], a[3]) })
 		}
 		return true
 	}
@@ -341,6 +343,15 @@ func (runInfo *runInfoStruct) callVMFunctionDirect(f reflect.Value, callExpr *as
 
 	runInfo.rv = rv
 	return true
+}
+
+// goCall runs the callee of a go statement. Outside debug mode a panic of the
+// callee ends only its own goroutine instead of the whole program.
+func goCall(debug bool, fn func()) {
+	if !debug {
+		defer func() { recover() }()
+	}
+	fn()
 }
 
 // checkIfRunVMFunction checking the number and types of the reflect.Type.
